@@ -8,7 +8,7 @@
     every supported type, nesting <= 3); the literal is parsed by the Coq term parser inside coq_filter and compared with
     the model's output, with the Python twin parser and with the canonical value (cqltypes serialisers = prepared path).
 """
-import datetime, ipaddress, json, os, uuid
+import collections, datetime, enum, ipaddress, json, os, uuid
 from collections import OrderedDict
 from decimal import Decimal
 from vf import core, lex_gen, enc_gen
@@ -45,6 +45,67 @@ class SDateTime(datetime.datetime): pass
 class SDate(datetime.date): pass
 class STime(datetime.time): pass
 class SIPv4(ipaddress.IPv4Address): pass
+class SOrderedDict(OrderedDict): pass
+NT = collections.namedtuple('NT', 'a b')       # itself a direct subclass of tuple
+class NT2(NT): pass                             # two levels below tuple
+
+
+class Mixin(object):
+    """plain mix-in for the multiple-inheritance cases"""
+
+
+# for every level-1 subclass: a 2-level and a 3-level chain, a mix-in class whose supported base is two levels up on the
+# second branch, and a diamond over two direct subclasses
+FAMILY = {}
+CLASSES = {}
+BASES = {SStr: str, SInt: int, SFloat: float, SBytes: bytes, SByteArray: bytearray, SList: list, STuple: tuple, SSet: set,
+         SFrozenSet: frozenset, SDict: dict, SUUID: uuid.UUID, SDecimal: Decimal, SDateTime: datetime.datetime, SDate: datetime.date,
+         STime: datetime.time, SIPv4: ipaddress.IPv4Address, SOrderedDict: OrderedDict}
+for _l1, _base in BASES.items():
+    _n = _l1.__name__
+    _l2 = type(_n + '2', (_l1,), {})
+    _l3 = type(_n + '3', (_l2,), {})
+    _fam = [_l1, _l1, _l2, _l3]
+    try:
+        _fam.append(type(_n + 'Mix', (Mixin, _l2), {}))
+        _a, _b = type(_n + 'A', (_base,), {}), type(_n + 'B', (_base,), {})
+        _fam.append(type(_n + 'Dia', (_a, _b), {}))
+    except TypeError:
+        pass
+    FAMILY[_l1] = _fam
+    for _c in _fam:
+        CLASSES[_c.__name__] = _c
+CLASSES.update({'NT': NT, 'NT2': NT2})
+
+
+def sub(l1, rng):
+    """a class 1, 2 or 3 levels below the supported base of l1 (or reaching it through multiple inheritance)"""
+    return rng.choice(FAMILY[l1])
+
+
+def str_enum(text):
+    return enum.StrEnum('SE', {'M': text}).M
+
+
+def int_enum(z):
+    return enum.IntEnum('IE', {'M': z}).M
+
+
+class DstTz(datetime.tzinfo):
+    """UTC+1 with one hour of DST from April to September"""
+
+    def utcoffset(self, dt):
+        return datetime.timedelta(hours=1) + self.dst(dt)
+
+    def dst(self, dt):
+        return datetime.timedelta(hours=1) if dt is not None and 4 <= dt.month <= 9 else datetime.timedelta(0)
+
+    def tzname(self, dt):
+        return 'DST'
+
+
+TZS = [datetime.timezone(datetime.timedelta(hours=5, minutes=30)), datetime.timezone(datetime.timedelta(hours=-8)),
+       datetime.timezone(datetime.timedelta(hours=14)), datetime.timezone(datetime.timedelta(minutes=-1)), datetime.timezone.utc, DstTz()]
 
 
 def gen(ctx):
@@ -214,35 +275,42 @@ def scalars(rng):
         return rng.choice([None, True, False])
     if t in (1, 2):
         s = rng.choice(TEXTS) if rng.random() < 0.6 else ''.join(rng.choice("ab'\" ,]}:%\n\\é\U0001d11e") for _ in range(rng.randint(0, 12)))
-        return SStr(s) if rng.random() < 0.35 else s
+        if rng.random() < 0.08 and s:
+            return str_enum(s)
+        return sub(SStr, rng)(s) if rng.random() < 0.4 else s
     if t == 3:
         z = rng.choice(INTS) if rng.random() < 0.6 else rng.randint(-10 ** 12, 10 ** 12)
-        return SInt(z) if rng.random() < 0.3 else z
+        if rng.random() < 0.05:
+            return int_enum(z)
+        return sub(SInt, rng)(z) if rng.random() < 0.3 else z
     if t == 4:
         x = rng.choice(FLOATS) if rng.random() < 0.6 else rng.choice([rng.uniform(-1e6, 1e6), rng.random() * 10 ** rng.randint(-300, 300)])
-        return SFloat(x) if rng.random() < 0.3 else x
+        return sub(SFloat, rng)(x) if rng.random() < 0.3 else x
     if t == 5:
         d = rng.choice(DECIMALS) if rng.random() < 0.6 else '%s%d.%0*dE%+d' % (rng.choice(['', '-']), rng.randint(0, 10 ** 6), rng.randint(1, 20),
                                                                                 rng.randint(0, 10 ** 9), rng.randint(-30, 30))
-        return SDecimal(d) if rng.random() < 0.3 else Decimal(d)
+        return sub(SDecimal, rng)(d) if rng.random() < 0.3 else Decimal(d)
     if t == 6:
         b = bytes(rng.randrange(256) for _ in range(rng.randint(0, 12)))
-        return rng.choice([bytes, bytes, bytearray, memoryview, SBytes, SByteArray])(b)
+        return rng.choice([bytes, bytes, bytearray, memoryview, sub(SBytes, rng), sub(SByteArray, rng)])(b)
     if t == 7:
         u = rng.choice(UUIDS) if rng.random() < 0.6 else str(uuid.UUID(int=rng.getrandbits(128)))
-        return SUUID(u) if rng.random() < 0.3 else uuid.UUID(u)
+        return sub(SUUID, rng)(u) if rng.random() < 0.3 else uuid.UUID(u)
     if t == 8:
         args = (rng.randint(1000, 9999), rng.randint(1, 12), rng.randint(1, 28), rng.randint(0, 23), rng.randint(0, 59), rng.randint(0, 59),
                 rng.choice([0, 1, 999, 1000, 500000, 999999, 123456]))
         if rng.random() < 0.2:
             args = (1970, 1, 1, 0, 0, 0, 0)
-        return (SDateTime if rng.random() < 0.3 else datetime.datetime)(*args)
+        cls = sub(SDateTime, rng) if rng.random() < 0.3 else datetime.datetime
+        if rng.random() < 0.45:      # timezone-aware: fixed non-zero offsets, UTC, and a tzinfo with DST
+            return cls(rng.randint(1971, 2100), *args[1:], tzinfo=rng.choice(TZS))
+        return cls(*args)
     if t == 9:
         args = (rng.randint(1000, 9999), rng.randint(1, 12), rng.randint(1, 28))
-        return (SDate if rng.random() < 0.3 else datetime.date)(*args)
+        return (sub(SDate, rng) if rng.random() < 0.3 else datetime.date)(*args)
     if t == 10:
         args = (rng.randint(0, 23), rng.randint(0, 59), rng.randint(0, 59), rng.choice([0, 0, 1, 999999, 120000]))
-        return (STime if rng.random() < 0.3 else datetime.time)(*args)
+        return (sub(STime, rng) if rng.random() < 0.3 else datetime.time)(*args)
     if t == 11:
         return U.Time(rng.choice([0, 1, 86399999999999, rng.randrange(86400 * 10 ** 9)]))
     if t == 12:
@@ -250,7 +318,7 @@ def scalars(rng):
     if t == 13:
         if rng.random() < 0.5:
             a = '%d.%d.%d.%d' % tuple(rng.randrange(256) for _ in range(4))
-            return SIPv4(a) if rng.random() < 0.3 else ipaddress.IPv4Address(a)
+            return sub(SIPv4, rng)(a) if rng.random() < 0.3 else ipaddress.IPv4Address(a)
         return ipaddress.IPv6Address(rng.choice([0, 1, 2 ** 128 - 1, rng.getrandbits(128), rng.getrandbits(32) << 96, 0xffff00000000 | rng.getrandbits(32)]))
     if t == 14:
         return rng.choice(TEXTS)
@@ -275,14 +343,16 @@ def value(rng, depth):
     t = rng.randrange(9)
     n = rng.choice([0, 1, 1, 2, 2, 3, 4])
     if t == 0:
-        return rng.choice([list, list, SList])([value(rng, depth - 1) for _ in range(n)])
+        return rng.choice([list, list, sub(SList, rng)])([value(rng, depth - 1) for _ in range(n)])
     if t == 1:
-        return rng.choice([tuple, tuple, STuple])([value(rng, depth - 1) for _ in range(n)])
+        if rng.random() < 0.15:
+            return rng.choice([NT, NT2])(value(rng, depth - 1), value(rng, depth - 1))
+        return rng.choice([tuple, tuple, sub(STuple, rng)])([value(rng, depth - 1) for _ in range(n)])
     if t == 2:
         return ValueSequence([value(rng, depth - 1) for _ in range(n)])
     if t in (3, 4):
         elems = [hashable(rng, depth - 1) for _ in range(n)]
-        return rng.choice([set, frozenset, SSet, SFrozenSet, set])(elems)
+        return rng.choice([set, frozenset, sub(SSet, rng), sub(SFrozenSet, rng), set])(elems)
     if t == 5:
         try:
             return U.sortedset([rng.choice(INTS) for _ in range(n)])
@@ -290,7 +360,7 @@ def value(rng, depth):
             return set()
     items = [(hashable(rng, depth - 1), value(rng, depth - 1)) for _ in range(n)]
     if t == 6:
-        return rng.choice([dict, SDict, OrderedDict])(items)
+        return rng.choice([dict, sub(SDict, rng), OrderedDict, sub(SOrderedDict, rng)])(items)
     if t == 7:
         return dict(items)
     return U.OrderedMap([(k, v) for k, v in items if type(k) in (int, str)][:2])
@@ -300,8 +370,8 @@ def hashable(rng, depth):
     if depth > 0 and rng.random() < 0.3:
         n = rng.choice([0, 1, 2])
         if rng.random() < 0.5:
-            return rng.choice([tuple, STuple])([hashable(rng, depth - 1) for _ in range(n)])
-        return rng.choice([frozenset, SFrozenSet])([hashable(rng, depth - 1) for _ in range(n)])
+            return rng.choice([tuple, sub(STuple, rng)])([hashable(rng, depth - 1) for _ in range(n)])
+        return rng.choice([frozenset, sub(SFrozenSet, rng)])([hashable(rng, depth - 1) for _ in range(n)])
     return hashable_scalar(rng)
 
 
@@ -338,7 +408,13 @@ def culprit(v, enc):
 
 
 def key_for(v, ex, cls):
-    return 'Encoder.%s%s.%s' % (base_name(v), '' if type(v) in ex else '.subclass', cls)
+    if type(v) in ex:
+        how = ''
+    elif any(b in ex for b in type(v).__bases__):
+        how = '.subclass'
+    else:
+        how = '.subclass-indirect'      # two or more levels below the supported type, or an Enum mix
+    return 'Encoder.%s%s.%s' % (base_name(v), how, cls)
 
 
 def describe(v):
@@ -364,6 +440,8 @@ def portable(v):
     t = type(v).__name__
     if v is None or isinstance(v, bool):
         return {'t': t, 'v': v}
+    if isinstance(v, enum.Enum):
+        return {'t': 'StrEnumMember', 'v': [ord(c) for c in str.__str__(v)]} if isinstance(v, str) else {'t': 'IntEnumMember', 'v': str(int(v))}
     if isinstance(v, int):
         return {'t': t, 'v': str(int(v))}
     if isinstance(v, float):
@@ -375,7 +453,9 @@ def portable(v):
     if isinstance(v, (bytes, bytearray, memoryview)):
         return {'t': t, 'v': list(bytes(v))}
     if isinstance(v, datetime.datetime):
-        return {'t': t, 'v': [v.year, v.month, v.day, v.hour, v.minute, v.second, v.microsecond]}
+        off = v.utcoffset()
+        return {'t': t, 'v': [v.year, v.month, v.day, v.hour, v.minute, v.second, v.microsecond],
+                'utcoffset_s': None if off is None else off.total_seconds()}
     if isinstance(v, datetime.date):
         return {'t': t, 'v': [v.year, v.month, v.day]}
     if isinstance(v, datetime.time):
@@ -393,32 +473,41 @@ def rebuild(d):
     from cassandra import util as U
     from cassandra.encoder import ValueSequence
     t, v = d['t'], d['v']
-    cls = {'SStr': SStr, 'str': str, 'SInt': SInt, 'int': int, 'SFloat': SFloat, 'float': float, 'SBytes': SBytes, 'bytes': bytes,
-           'SByteArray': SByteArray, 'bytearray': bytearray, 'memoryview': memoryview, 'SList': SList, 'list': list, 'STuple': STuple,
-           'tuple': tuple, 'SSet': SSet, 'set': set, 'SFrozenSet': SFrozenSet, 'frozenset': frozenset, 'SDict': SDict, 'dict': dict,
-           'OrderedDict': OrderedDict, 'SUUID': SUUID, 'UUID': uuid.UUID, 'SDecimal': SDecimal, 'Decimal': Decimal,
-           'SDateTime': SDateTime, 'datetime': datetime.datetime, 'SDate': SDate, 'date': datetime.date, 'STime': STime, 'time': datetime.time,
-           'SIPv4': SIPv4, 'IPv4Address': ipaddress.IPv4Address, 'IPv6Address': ipaddress.IPv6Address, 'ValueSequence': ValueSequence,
-           'sortedset': U.sortedset, 'OrderedMap': U.OrderedMap, 'util.Time': U.Time, 'util.Date': U.Date}.get(t)
+    if t == 'StrEnumMember':
+        return str_enum(''.join(chr(c) for c in v))
+    if t == 'IntEnumMember':
+        return int_enum(int(v))
+    cls = {'str': str, 'int': int, 'float': float, 'bytes': bytes, 'bytearray': bytearray, 'memoryview': memoryview, 'list': list,
+           'tuple': tuple, 'set': set, 'frozenset': frozenset, 'dict': dict, 'OrderedDict': OrderedDict, 'UUID': uuid.UUID,
+           'Decimal': Decimal, 'datetime': datetime.datetime, 'date': datetime.date, 'time': datetime.time,
+           'IPv4Address': ipaddress.IPv4Address, 'IPv6Address': ipaddress.IPv6Address, 'ValueSequence': ValueSequence,
+           'sortedset': U.sortedset, 'OrderedMap': U.OrderedMap, 'util.Time': U.Time, 'util.Date': U.Date}.get(t) or CLASSES.get(t)
     if t in ('NoneType', 'bool'):
         return v
-    if cls in (SInt, int):
-        return cls(int(v))
-    if cls in (SFloat, float):
-        return cls(float.fromhex(v))
-    if cls in (SStr, str):
-        return cls(''.join(chr(c) for c in v))
-    if cls in (SBytes, bytes, SByteArray, bytearray):
-        return cls(bytes(v))
     if cls is memoryview:
         return memoryview(bytes(v))
-    if cls in (SDict, dict, OrderedDict):
-        return cls([(rebuild(k), rebuild(x)) for k, x in v])
     if cls is U.OrderedMap:
         return U.OrderedMap([(rebuild(k), rebuild(x)) for k, x in v])
-    if cls in (SDateTime, datetime.datetime, SDate, datetime.date, STime, datetime.time):
+    if cls in (U.Time, U.Date, U.sortedset, ValueSequence):
+        return cls([rebuild(x) for x in v]) if cls in (U.sortedset, ValueSequence) else cls(v)
+    if issubclass(cls, int):
+        return cls(int(v))
+    if issubclass(cls, float):
+        return cls(float.fromhex(v))
+    if issubclass(cls, str):
+        return cls(''.join(chr(c) for c in v))
+    if issubclass(cls, (bytes, bytearray)):
+        return cls(bytes(v))
+    if issubclass(cls, dict):
+        return cls([(rebuild(k), rebuild(x)) for k, x in v])
+    if issubclass(cls, datetime.datetime):
+        off = d.get('utcoffset_s')
+        return cls(*v) if off is None else cls(*v, tzinfo=datetime.timezone(datetime.timedelta(seconds=off)))
+    if issubclass(cls, (datetime.date, datetime.time)):
         return cls(*v)
-    if cls in (SList, list, STuple, tuple, SSet, set, SFrozenSet, frozenset, ValueSequence, U.sortedset):
+    if hasattr(cls, '_fields'):
+        return cls(*[rebuild(x) for x in v])
+    if issubclass(cls, (list, tuple, set, frozenset)):
         return cls([rebuild(x) for x in v])
     return cls(v)
 
@@ -492,23 +581,57 @@ def run(ctx):
     vals = load_corpus()
     # every scalar pool value plainly and as a subclass, then random nested values
     for s in TEXTS:
-        vals += [s, SStr(s)]
+        vals += [s, SStr(s), ctx.rng.choice(FAMILY[SStr][2:])(s)] + ([str_enum(s)] if s else [])
     for z in INTS:
-        vals += [z, SInt(z)]
+        vals += [z, SInt(z), ctx.rng.choice(FAMILY[SInt][2:])(z)]
     for x in FLOATS:
-        vals += [x, SFloat(x)]
+        vals += [x, SFloat(x), ctx.rng.choice(FAMILY[SFloat][2:])(x)]
     for d in DECIMALS:
-        vals += [Decimal(d), SDecimal(d)]
+        vals += [Decimal(d), SDecimal(d), ctx.rng.choice(FAMILY[SDecimal][2:])(d)]
     for u in UUIDS:
-        vals += [uuid.UUID(u), SUUID(u)]
+        vals += [uuid.UUID(u), SUUID(u), ctx.rng.choice(FAMILY[SUUID][2:])(u)]
     vals += [None, True, False, b'', b'\x00\xff', bytearray(b'ab'), memoryview(b'xyz'), SBytes(b"'"), SByteArray(b'\x01'),
              [], (), set(), {}, SList(), STuple(), SSet(), SFrozenSet(), SDict(), OrderedDict(), [[]], [[[1]]], {1: {2: {3: [4]}}},
              SList(["x' OR 1=1 --"]), [SStr("x' OR 1=1 --")], {SStr('k'): SStr("v'")}, SDict({'a': 1}), STuple((1, 'a')), {frozenset([1]): (1, 2)}]
+    # every class of every family (2-/3-level chains, mix-in, diamond) once with an adversarial payload; Enum mixes; namedtuples
+    inj = "x' OR 1=1 --"
+    for l1, fam in FAMILY.items():
+        base = BASES[l1]
+        for cls in fam[1:]:
+            if issubclass(cls, str):
+                vals.append(cls(inj))
+            elif issubclass(cls, (bytes, bytearray)):
+                vals.append(cls(b"'\x00"))
+            elif issubclass(cls, dict):
+                vals.append(cls({inj: SStr(inj)}))
+            elif issubclass(cls, (list, tuple, set, frozenset)):
+                vals.append(cls([inj]))
+            elif issubclass(cls, float):
+                vals += [cls('inf'), cls(-1.5)]
+            elif issubclass(cls, int):
+                vals.append(cls(-7))
+            elif issubclass(cls, Decimal):
+                vals.append(cls('1.10'))
+            elif issubclass(cls, uuid.UUID):
+                vals.append(cls(UUIDS[1]))
+            elif issubclass(cls, datetime.datetime):
+                vals += [cls(2020, 6, 1, 12, 0, 0), cls(2020, 6, 1, 12, 0, 0, tzinfo=TZS[0])]
+            elif issubclass(cls, datetime.date):
+                vals.append(cls(2020, 6, 1))
+            elif issubclass(cls, datetime.time):
+                vals.append(cls(12, 30, 1))
+            elif issubclass(cls, ipaddress.IPv4Address):
+                vals.append(cls('10.0.0.1'))
+    vals += [str_enum(inj), int_enum(5), NT(1, inj), NT2(inj, 2), [str_enum("a'b")], {str_enum('k'): NT2(1, 2)}]
+    for tz in TZS:      # timezone-aware datetimes: the literal must be the UTC instant the prepared path sends
+        vals += [datetime.datetime(2021, 1, 15, 10, 30, 0, 123000, tzinfo=tz), datetime.datetime(2021, 7, 15, 23, 59, 59, tzinfo=tz),
+                 SDateTime(1999, 12, 31, 23, 0, 0, tzinfo=tz)]
     for _ in range(n):
         vals.append(value(ctx.rng, 3))
     ctx.rule = ('pools of adversarial texts / boundary ints / floats (inf, nan, subnormal, max) / decimals / uuids, each plainly and as an '
-                'instance of a subclass; %d random values nested to depth <= 3 over every supported type and a subclass of each subclassable '
-                'one; each substituted positionally and by name through bind_params; plus a malformed-literal stream for the parser twins. '
+                'instance of a subclass; every class of 1-/2-/3-level chains, mix-in and diamond subclasses of each subclassable type, StrEnum/IntEnum '
+                'members, namedtuple (sub)classes; naive and timezone-aware datetimes (fixed offsets, DST tzinfo); %d random values nested to depth '
+                '<= 3 over all of these; each substituted positionally and by name through bind_params; plus a malformed-literal stream for the parser twins. '
                 'non-trivial = distinct (literal, type) that involves a subclass, nesting, or quoting/sign/point/hex' % n)
     ctx.exhaustive = False
     lits = Lits()
